@@ -133,9 +133,9 @@ func checkCondition(toks []string, leaves []string) (string, bool) {
 }
 
 func TestVerifBounded_C02(t *testing.T) {
-	maxLeaves := 3
+	maxLeaves := 4
 	if os.Getenv("VERIF_TIER") == "thorough" {
-		maxLeaves = 4
+		maxLeaves = 5
 	}
 	names := []string{"A", "B", "C", "D", "E"}
 	cases, known, failing := 0, 0, 0
